@@ -254,8 +254,9 @@ with tempfile.TemporaryDirectory(prefix="jasmverif_") as d:
             mpaths = []
             for name, macros in extra:
                 mp = os.path.join(d, name)          # same name => same path (a library file edited between operations)
-                open(mp, "w").write(yaml.safe_dump({"macros": macros}, sort_keys=False))
-                os.utime(mp, (1000000000 + 7 * k, 1000000000 + 7 * k))
+                text = yaml.safe_dump({"macros": macros}, sort_keys=False)
+                if not os.path.exists(mp) or open(mp).read() != text:
+                    open(mp, "w").write(text)      # only rewritten when the content really changes
                 mpaths.append(mp)
         try:
             m = MasterOfPuppets(MatchConfig(pattern_pathstr=p, input_file=a, return_mode=MatchingReturnMode.matched_addrs_list, matching_mode=MatchingSearchMode.all_finds, macros=mpaths))
